@@ -34,4 +34,37 @@ theorem C05_classify_is_source (t : TrialV) :
   cases t.killed <;> cases t.failed <;> cases t.succeeded <;> cases t.earlyStopped <;> cases t.running <;>
     cases t.metricsUnavailable <;> simp
 
+/-- **C05_guards_partition**: stated on the regenerated conditions alone — whatever combination of conditions a Trial carries
+    (all 64), exactly one of the seven appends of the status loop is reached for it: the seven lists partition the Trials -/
+theorem C05_guards_partition (killed failed succeeded earlyStopped running metricsUnavailable : Bool) :
+    ([listKilledGuard, listFailedGuard, listSucceededGuard, listEarlyStoppedGuard, listRunningGuard,
+      listMetricsUnavailableGuard, listPendingGuard].filter
+        (fun g => g killed failed succeeded earlyStopped running metricsUnavailable false false)).length = 1 := by
+  unfold listKilledGuard listFailedGuard listSucceededGuard listEarlyStoppedGuard listRunningGuard
+    listMetricsUnavailableGuard listPendingGuard
+  cases killed <;> cases failed <;> cases succeeded <;> cases earlyStopped <;> cases running <;>
+    cases metricsUnavailable <;> decide
+
+/-- for every list of Trials, the number of Trials whose class is `c` is the number of Trials for which the regenerated guard of
+    `c`'s list holds (the loop appends in order, so each list is the corresponding sublist) -/
+theorem C05_class_sublists_are_source (ts : List TrialV) :
+    ts.filter (fun t => classify t = .killed) = ts.filter (fun t => clsG t listKilledGuard) ∧
+    ts.filter (fun t => classify t = .failed) = ts.filter (fun t => clsG t listFailedGuard) ∧
+    ts.filter (fun t => classify t = .succeeded) = ts.filter (fun t => clsG t listSucceededGuard) ∧
+    ts.filter (fun t => classify t = .earlyStopped) = ts.filter (fun t => clsG t listEarlyStoppedGuard) ∧
+    ts.filter (fun t => classify t = .running) = ts.filter (fun t => clsG t listRunningGuard) ∧
+    ts.filter (fun t => classify t = .metricsUnavailable) = ts.filter (fun t => clsG t listMetricsUnavailableGuard) ∧
+    ts.filter (fun t => classify t = .pending) = ts.filter (fun t => clsG t listPendingGuard) := by
+  refine ⟨?_, ?_, ?_, ?_, ?_, ?_, ?_⟩ <;>
+    (apply List.filter_congr; intro t _
+     have h := C05_classify_is_source t
+     rw [Bool.eq_iff_iff]; simp only [decide_eq_true_eq])
+  · exact h.1
+  · exact h.2.1
+  · exact h.2.2.1
+  · exact h.2.2.2.1
+  · exact h.2.2.2.2.1
+  · exact h.2.2.2.2.2.1
+  · exact h.2.2.2.2.2.2
+
 end Katib.Gen
